@@ -182,6 +182,54 @@ theorem priority_only_scales (rx : Rx) (sa : String → Option (List (String × 
   · rename_i r hr
     exact absurd h (by intro e; exact hr k p' e)
 
+/-! ### From the statement to the reference event (`get_event_from_element`) -/
+
+/-- `match $action_ref.Finished(..)` / `.Started(..)` advances only on events of that very action. -/
+theorem action_ref_only_own_instance (rx : Rx) (sa : String → Option (List (String × Val)))
+    (a : ActionObj) (member : String) (args : List (String × Val)) (ev r : Ev) (p : Option (Int × Nat))
+    (hr : refEvent (.actionRef a member args) = some r)
+    (hk : ev.kind = .action)
+    (hi : ¬ (ev.name ∈ internalEventsAll ∧ r.name ∈ internalEventsAll))
+    (hs : ¬ (ev.name = evStartFlow ∧ r.name = evStartFlow))
+    (hu : ev.actionUid ≠ some a.uid) :
+    eventScore rx sa ev r p = .zero := by
+  simp only [refEvent, ActionObj.matchEvent] at hr
+  split at hr
+  · simp only [Option.some.injEq] at hr
+    subst hr
+    exact action_instance_specific rx sa ev _ p a.uid ⟨hk, rfl⟩ rfl hu hi hs
+  · simp at hr
+
+/-- `match $flow_ref.Finished(..)` / `.Started(..)` / `.Failed(..)` never advances (nor fails) on an internal
+    event that originates from another flow instance. -/
+theorem flow_ref_only_own_instance (rx : Rx) (sa : String → Option (List (String × Val)))
+    (f : FlowObj) (member : String) (args : List (String × Val)) (ev r : Ev) (p : Option (Int × Nat)) (src : String)
+    (hr : refEvent (.flowRef f member args) = some r)
+    (hi : ev.name ∈ internalEventsAll) (hs : ev.name ≠ evStartFlow)
+    (hsrc : lookup "source_flow_instance_uid" ev.args = some (.str src)) (hne : src ≠ f.uid) :
+    eventScore rx sa ev r p = .zero ∨ eventScore rx sa ev r p = .err := by
+  have hs' : ∀ n, ¬ (ev.name = evStartFlow ∧ n = evStartFlow) := fun n h => hs h.1
+  simp only [refEvent, FlowObj.matchEvent] at hr
+  split at hr
+  · simp only [Option.some.injEq] at hr; subst hr
+    exact flow_instance_specific rx sa ev _ p f.uid src ⟨hi, by simp [internalEventsAll, evFlowStarted]⟩ (hs' _) rfl hsrc hne
+  · split at hr
+    · simp only [Option.some.injEq] at hr; subst hr
+      exact flow_instance_specific rx sa ev _ p f.uid src ⟨hi, by simp [internalEventsAll, evFlowFailed]⟩ (hs' _) rfl hsrc hne
+    · split at hr
+      · simp only [Option.some.injEq] at hr; subst hr
+        exact flow_instance_specific rx sa ev _ p f.uid src ⟨hi, by simp [internalEventsAll, evFlowFinished]⟩ (hs' _) rfl hsrc hne
+      · simp at hr
+
+/-- A statement built from an action constructor (`match SomeAction(..).Finished(..)`) is NOT tied to an
+    instance: its reference event carries no action uid. -/
+theorem action_ctor_not_instance_specific (name member : String) (ctorArgs args : List (String × Val)) (r : Ev)
+    (hr : refEvent (.actionCtor name ctorArgs member args) = some r) : r.actionUid = none := by
+  simp only [refEvent, ActionObj.matchEvent] at hr
+  split at hr
+  · simp at hr; subst hr; rfl
+  · simp at hr
+
 /-! ### The open finding, kernel-checked on the model of the code as it is -/
 
 /-- `{"return_value": 1}` matches `{"return_value": 2, "a": 1}` (score 0.9^1) although the
